@@ -71,6 +71,9 @@ func c16Gen(r *rand.Rand, tier string) []Case {
 	out = append(out, Case{"freset", "fork # k=1 m=delegate val=1 amt=3000000000000000000", "fork # k=2 m=delegate val=0 amt=1000000000000000000", "query # k=1 val=1",
 		"jail # val=1", "query # k=1 val=1", "query # k=2 val=0", "fork # k=1 m=undelegate val=1 amt=staked/2", "adv # dt=30000", "query # k=1 val=1",
 		"fork # k=1 m=redelegate val=1 dst=0 amt=staked/2", "query # k=1 val=1"})
+	// fixed case: an unbonding entry exists; cancelling it with its creation height plus 2^64 in the 256-bit argument
+	out = append(out, Case{"freset", "fork # k=1 m=delegate val=0 amt=3000000000000000000", "fork # k=1 m=undelegate val=0 amt=staked/2",
+		"fork # k=1 m=cancelUnbondingDelegation val=0 amt=1000 h=wrap", "fork # k=1 m=cancelUnbondingDelegation val=0 amt=1000"})
 	// fixed case: a validator's commission, withdrawn by its operator — a sizeable one, then one below a base unit
 	out = append(out, Case{"freset", "commission # val=0 reward=1000000000", "fork # k=1 m=withdrawValidatorCommission val=0", "commission # val=1 reward=5", "fork # k=1 m=withdrawValidatorCommission val=1",
 		"fork # k=1 m=withdrawValidatorCommission val=2", "commission # val=0 reward=1000000000", "fork # k=1 m=withdrawValidatorCommission val=0 spell=upper"})
@@ -107,7 +110,11 @@ func c16Gen(r *rand.Rand, tier string) []Case {
 			case x < 8:
 				c = append(c, fmt.Sprintf("fork # k=%d m=redelegate val=%s dst=%s amt=%s", k, val, pick(r, []string{"0", "1", "2", "bad"}), amt))
 			case x < 9:
-				c = append(c, fmt.Sprintf("fork # k=%d m=cancelUnbondingDelegation val=%s amt=%s", k, val, amt))
+				hw := ""
+				if r.Intn(4) == 0 {
+					hw = " h=wrap"
+				}
+				c = append(c, fmt.Sprintf("fork # k=%d m=cancelUnbondingDelegation val=%s amt=%s%s", k, val, amt, hw))
 			case x < 10:
 				c = append(c, fmt.Sprintf("fork # k=%d m=setWithdrawAddress w=%s", k, pick(r, []string{"self", "other", "module:distribution", "module:fee_collector", "fresh", "precompile"})))
 			case x < 12:
@@ -307,6 +314,13 @@ func c16Exec(c Case) (outs []string, fails []Failure, tags []string) {
 					runNative = func(ctx sdk.Context) error {
 						_, e := stakeSrv.CancelUnbondingDelegation(sdk.WrapSDKContext(ctx), msg)
 						return e
+					}
+					if kv["h"] == "wrap" {
+						// the height argument is a 256-bit word; the message's field is an int64: h + 2^64 names no entry, and no
+						// native message carries it — the corresponding native submission fails (it cannot even be built)
+						in, err = sabi.Pack(m, eth, va, amt, new(big.Int).Add(big.NewInt(h), new(big.Int).Lsh(big.NewInt(1), 64)))
+						runNative = func(sdk.Context) error { return fmt.Errorf("creation height beyond int64: no such message") }
+						tags = append(tags, "creation-height-beyond-int64")
 					}
 				case "setWithdrawAddress":
 					var w sdk.AccAddress
